@@ -239,6 +239,19 @@ def run_case(case, seed):
             if not np.all(np.isfinite(y)) or err > tol:
                 bad(f"@{tag}", "value", {"rel_err": err, "got": short(y), "want": short(want)})
             h.update(np.round(y / (np.abs(want).max() + 1e-300), 5).tobytes())
+        # operand dtype independence: a float32 (complex64) / integer operand holds values that double precision represents exactly, and the
+        # result has the promoted dtype, so f(A) @ x must not depend on the dtype the operand arrives in
+        for tag, xl in (("x1lowp", xs[0][1].astype(np.float32)), ("X2lowp", (xs[1][1] + (1j * xs[1][1][::-1] if np.iscomplexobj(M) else 0)).astype(
+                np.complex64 if np.iscomplexobj(M) else np.float32)), ("x1int", np.round(3 * xs[0][1]).astype(np.int64) + 1)):
+            ntr += 1
+            try:
+                y_narrow = np.asarray(fA @ xl)
+                y_wide = np.asarray(fA @ xl.astype(np.complex128 if np.iscomplexobj(xl) else np.float64))
+                dev = float(np.linalg.norm(y_narrow - y_wide) / max(np.linalg.norm(y_wide), 1e-300))
+                if y_narrow.shape != y_wide.shape or not np.isfinite(dev) or dev > 1e-10:
+                    bad(f"@{tag}", "depends-on-operand-dtype", {"rel_dev": dev, "narrow": short(y_narrow), "wide": short(y_wide)})
+            except Exception as e:
+                bad(f"@{tag}", f"exc:{type(e).__name__}", {"msg": str(e)[:300]})
         # algebraic identities on the operator that was returned
         x = xs[0][1]
         try:
@@ -338,8 +351,8 @@ def describe(tier, seed):
                  "complex), singular PSD (exp), Diagonal real/complex for n in " + ("{1,2,3,5}" if tier == "quick" else "{1,...,6,8,12,20}")
                  + "; Identity, ScalarMul, and every structural rule (BlockDiag with multiplicities, Transpose / Adjoint of a generic operator, "
                    "KronSum, Kronecker, 2-3 factors) nested to depth 2; x 17 functions (exp, log, sqrt, isqrt, 11 powers, x^2+1, cos) x 8 "
-                   "algorithm settings x operands {1-D, 2 columns, complex 1-D}",
+                   "algorithm settings x operands {1-D, 2 columns, complex 1-D, a zero column, a heterogeneous batch, float32 / complex64 and integer operands}",
         "alphabet": _DESC,
-        "oracle": "f(A) x from the eigendecomposition of the reference (scipy cross-check in prepare()); sqrt twice = A; pow(-1) solves; integer "
+        "oracle": "f(A) x independent of the dtype an exactly representable operand arrives in (1e-10); f(A) x from the eigendecomposition of the reference (scipy cross-check in prepare()); sqrt twice = A; pow(-1) solves; integer "
                   "powers = repeated products",
     }
